@@ -22,7 +22,7 @@ from concretise import concretise
 from sentence import spec_tree, Sentence
 
 THEMES = ['prec', 'prec2', 'lhs', 'stmt', 'iter', 'ctrl', 'lit', 'slash',
-          'noin1', 'noin2']
+          'noin1', 'noin2', 'acc', 'switch']
 NEG_THEMES = ['prec', 'prec2', 'lhs', 'stmt', 'iter', 'ctrl', 'lit', 'slash']
 
 # near-sentences: (theme sub-alphabet, lifted rule, {tier: MaxTok}) - the
